@@ -1,20 +1,67 @@
-(** Property C10 — answers do not depend on what the same solver solved before.
-    Only the property theorems; model: Engine/RecEngine.v, proofs: Engine/RecWitness.v (and
-    Engine/RecProof.v). *)
-From Chalk Require Import Engine.RecEngine Engine.RecWitness.
+(** Property C10 — answers do not depend on what the same solver solved before; the recursive
+    solver gives the same answers with its cache enabled or disabled.
+    Only the property theorems.  Model: Engine/RecEngine.v (faithful mechanism model of
+    chalk-recursive's [RecursiveContext<K,V>], compared with the real generic engine on every
+    run).  Proofs: Engine/RecInv.v, RecEval.v, RecSolve.v, RecTheorems.v; witnesses:
+    Engine/RecWitness.v.  [repaired] is the engine with the three repairs (F3, F4, F15). *)
+From Chalk Require Import Engine.RecTheorems.
+
+(** Every cache entry is the declarative (three-valued) value of its goal, after ANY history of
+    root solves -- interrupted, panicking or complete -- for every and-or graph without mixed
+    cycles, every configuration, every schedule. *)
+Theorem rec_cache_exact : forall G cf fuel h,
+  wf G -> ~ mixed_cycle G -> vr cf = repaired -> in_graph G h ->
+  forall g v, cache_get (cache (snd (run G cf fuel h init_state))) g = Some v -> sem G g v.
+Proof. intros G cf fuel h Hwf Hnm. exact (rec_cache_exact_lemma G Hwf Hnm cf fuel h). Qed.
+
+(** An uninterrupted root solve after any history answers the declarative value of the goal;
+    on two-valued graphs it is never ambiguous. *)
+Theorem rec_ground_exact : forall G cf fuel h fuel' g v s',
+  wf G -> ~ mixed_cycle G -> two_valued G -> vr cf = repaired -> in_graph G h -> g < length G ->
+  solve_root G cf fuel' g (after G cf fuel h) = Done v s' -> quiet cf (after G cf fuel h) s' ->
+  sem G g v /\ v <> Amb.
+Proof. intros G cf fuel h fuel' g v s' Hwf Hnm H2. exact (rec_ground_exact_lemma G Hwf Hnm cf fuel h fuel' g v s' H2). Qed.
+
+(** Two uninterrupted root solves of the same goal agree, whatever histories the two contexts
+    have seen (in particular: any history versus a fresh context), for any two configurations
+    of the repaired engine. *)
+Theorem rec_history_independent : forall G cf1 cf2 fuel1 h1 fuel2 h2 f1 f2 g v1 v2 s1 s2,
+  wf G -> ~ mixed_cycle G -> vr cf1 = repaired -> vr cf2 = repaired ->
+  in_graph G h1 -> in_graph G h2 -> g < length G ->
+  solve_root G cf1 f1 g (after G cf1 fuel1 h1) = Done v1 s1 -> quiet cf1 (after G cf1 fuel1 h1) s1 ->
+  solve_root G cf2 f2 g (after G cf2 fuel2 h2) = Done v2 s2 -> quiet cf2 (after G cf2 fuel2 h2) s2 ->
+  v1 = v2.
+Proof.
+  intros G cf1 cf2 fuel1 h1 fuel2 h2 f1 f2 g v1 v2 s1 s2 Hwf Hnm.
+  exact (rec_history_independent_lemma G Hwf Hnm cf1 cf2 fuel1 h1 fuel2 h2 f1 f2 g v1 v2 s1 s2).
+Qed.
+
+(** Cache enabled versus disabled, on fresh contexts. *)
+Theorem rec_cache_off_same : forall G cf1 cf2 f1 f2 g v1 v2 s1 s2,
+  wf G -> ~ mixed_cycle G -> vr cf1 = repaired -> vr cf2 = repaired ->
+  caching cf1 = true -> caching cf2 = false -> g < length G ->
+  solve_root G cf1 f1 g init_state = Done v1 s1 -> quiet cf1 init_state s1 ->
+  solve_root G cf2 f2 g init_state = Done v2 s2 -> quiet cf2 init_state s2 ->
+  v1 = v2.
+Proof.
+  intros G cf1 cf2 f1 f2 g v1 v2 s1 s2 Hwf Hnm V1 V2 _ _ Hg R1 Q1 R2 Q2.
+  exact (rec_history_independent_lemma G Hwf Hnm cf1 cf2 0 [] 0 [] f1 f2 g v1 v2 s1 s2 V1 V2
+           (fun _ H => match H with end) (fun _ H => match H with end) Hg R1 Q1 R2 Q2).
+Qed.
 
 (** F15 on the faithful model of the UNCHANGED engine: a history changes the answer. *)
 Theorem rec_history_refuted :
   exists G h g,
-    answer G (cfg unchanged [] []) 100 (h ++ [g]) init_state = Some (OVal No) /\
-    answer G (cfg unchanged [] []) 100 [g] init_state = Some (OVal Amb) /\
+    answer G (RecWitness.cfg unchanged [] []) 100 (h ++ [g]) init_state = Some (OVal No) /\
+    answer G (RecWitness.cfg unchanged [] []) 100 [g] init_state = Some (OVal Amb) /\
     eval G g = Amb /\ mixed_cycleb G = false.
 Proof. exact RecWitness.rec_history_refuted. Qed.
 
-(** Known class F27 (mixed inductive/coinductive cycles), on the REPAIRED engine. *)
+(** Known class F27 (mixed inductive/coinductive cycles, the hypothesis the theorems exclude),
+    on the REPAIRED engine. *)
 Theorem rec_history_mixed_refuted :
   exists G h g,
     mixed_cycleb G = true /\
-    answer G (cfg repaired [] []) 100 (h ++ [g]) init_state = Some (OVal No) /\
-    answer G (cfg repaired [] []) 100 [g] init_state = Some (OVal Yes).
+    answer G (RecWitness.cfg repaired [] []) 100 (h ++ [g]) init_state = Some (OVal No) /\
+    answer G (RecWitness.cfg repaired [] []) 100 [g] init_state = Some (OVal Yes).
 Proof. exact RecWitness.rec_history_mixed_refuted. Qed.
